@@ -104,20 +104,29 @@ impl MOp {
     }
 }
 
-/// k < 200: the shared key universe; 200.. : further embedding keys (three or
-/// more `emb:` keys give the entity index something to renumber)
+/// k < 200: the shared key universe; 200..202: further embedding keys (three or
+/// more `emb:` keys give the entity index something to renumber); 203..: bare names
 fn key_of(k: u8) -> &'static str {
     match k {
         200 => "emb:c",
         201 => "emb:d",
         202 => "emb:e",
+        // names equal to a class word without the colon, and near misses: ordinary
+        // durable keys whatever the class prefixes are
+        203 => "_cache",
+        204 => "emb",
+        205 => "node",
+        206 => "edge",
+        207 => "table",
+        208 => "_blob",
+        209 => "_cachex",
         _ => KEY_UNIVERSE[k as usize % KEY_UNIVERSE.len()],
     }
 }
 
 fn all_keys() -> Vec<&'static str> {
     let mut v: Vec<&'static str> = KEY_UNIVERSE.to_vec();
-    v.extend(["emb:c", "emb:d", "emb:e"]);
+    v.extend(["emb:c", "emb:d", "emb:e", "_cache", "emb", "node", "edge", "table", "_blob", "_cachex"]);
     v
 }
 
@@ -649,9 +658,13 @@ impl Scenario for C02 {
         // five embedding keys
         let plain = rng.chance(1, 4);
         let many_emb = rng.chance(1, 3);
+        // a sixth of the others use key names equal to a class word (no colon)
+        let bare = !many_emb && rng.chance(1, 6);
         let key = |rng: &mut Rng| -> u8 {
             if many_emb && rng.chance(1, 2) {
                 *rng.pick(&[2u8, 3, 200, 201, 202])
+            } else if bare && rng.chance(1, 2) {
+                *rng.pick(&[203u8, 203, 204, 205, 206, 207, 208, 209])
             } else {
                 rng.below(u64::from(nkeys)) as u8
             }
